@@ -92,6 +92,8 @@ def obligations(tier):
     for c in PDS_CARRIERS if not q else (48, 125):
         obs.append(Ob('pds-carrier/DE%d' % c, framing(lambda c=c: [c], 'latin_1', False, 3 + (21 if q else 30)), 900,
                       'PDS carrier DE%d alone, data 0..%d: framing of the sub-elements inside the carrier' % (c, 3 + (21 if q else 30)), _funcs))
+    obs.append(Ob('single-long/latin_1', framing(lambda: choose('bits', [[54], [72], [111], [127], [63]]), 'latin_1', False, 1006, sub=False), 900,
+                  'each plain LLLVAR element alone, data length 0..1006 (declared lengths up to 999)', _funcs))
     obs.append(Ob('icc/DE55', framing(lambda: [55], 'latin_1', False, 3 + (5 if q else 7)), 1200,
                   'ICC field alone, data 0..%d, all byte values of tags/lengths (peek table)' % (3 + (5 if q else 7)), _funcs))
     return obs
